@@ -360,13 +360,19 @@ def v_menu(gname):
         ['f', 'vf_typedefd', 'FooVfTypedefd'],
         ['f', 'data', 'int'],
         ['cb', '_reserved', 'void', []],
+        # underscore-named slots: a real virtual method (first parameter = instance) stays one; padding does not
+        ['cb', '_flush_pending', 'void', [[o, 'self']]],
+        ['cb', '_reserved_arg', 'void', [['int', 'x']]],
     ]
+
+
+V_MENU_LEN = 11
 
 
 def v_params(tier):
     maxlen = 3 if tier == 'thorough' else 2
     for owner in (0, 1, 2):
-        for s in seqs(range(9), maxlen):
+        for s in seqs(range(V_MENU_LEN), maxlen):
             if len(set(s)) != len(s):
                 continue
             for suffix in ((0, 1) if owner == 1 else (0,)):
